@@ -36,6 +36,25 @@ pub struct MacroDef {
     pub rules: Vec<Rule>,
 }
 
+fn flatten_vars(ms: &[M], out: &mut Vec<(String, String)>) {
+    for m in ms {
+        match m {
+            M::Var(n, f) => out.push((n.clone(), f.clone())),
+            M::Group(_, inner) | M::Rep(inner, _, _) => flatten_vars(inner, out),
+            M::Tok(_) => {}
+        }
+    }
+}
+
+impl Rule {
+    /// Every `$name:frag` of the matcher (repetitions and groups flattened).
+    pub fn vars(&self) -> Vec<(String, String)> {
+        let mut out = vec![];
+        flatten_vars(&self.matcher, &mut out);
+        out
+    }
+}
+
 fn is_punct(t: &TokenTree, c: char) -> bool {
     matches!(t, TokenTree::Punct(p) if p.as_char() == c)
 }
